@@ -1,0 +1,11 @@
+//go:build !verif
+
+package go_clipper2
+
+// No-op twins of the verification hooks in verif_hooks_on.go (build tag "verif").
+
+func verifEvent(kind string, pts ...Point64) {}
+
+func verifEventLoop(kind string, op *OutPt) {}
+
+func verifLastPt(ae *Active) Point64 { return Point64{} }
